@@ -183,9 +183,10 @@ def ob_call(report):
             # a reference into the shared table is a held shard lock (DashMap): it must be gone at every suspension point - a request parked on the
             # semaphore while holding it blocks, synchronously, the executor thread of the next request that touches the same shard
             if isinstance(r.ret, Agg) and r.ret.variant == 'Pending':
-                created = [f'slotref({vname(e.args[0])})' for e in evs if e.kind in ('or-insert', 'lookup-hit')]
+                created = [vname(e.args[0]) for e in evs if e.kind in ('or-insert', 'lookup-hit')]
                 dropped = {vname(e.args[0]) for e in evs if e.kind == 'drop' and e.args}
-                held = [c for c in created if c not in dropped]
+                # released = the reference (RefMut/Ref) or the entry it came from (OccupiedEntry of an explicit match) has been dropped
+                held = [f'slotref({c})' for c in created if f'slotref({c})' not in dropped and not any(d == c or d.startswith(c + '@') for d in dropped)]
                 if held:
                     return viol(ob, [ex], f'the limiter future suspends (returns Pending) while still holding a reference into the shared semaphore table ({held[0]}): DashMap references are '
                                 'shard locks - the next request hashing to that shard blocks its executor thread inside the map, so a peer that keeps requests queued stalls the runtime',
@@ -329,6 +330,9 @@ def ob_constructors(report):
             return e2.peel(ret.fields[names.index(f)]) if isinstance(ret, Agg) and f in names and names.index(f) < len(ret.fields) else None
         # clones share table, limit and mode
         for ty, names in (('InflightLimit', sf), ('InflightLimitLayer', lf)):
+            gone = [f for f in ('inflight', 'max_inflight', 'wait_mode') if f not in names]
+            if gone:
+                return ob.done([ex], 'inconclusive', f'{ty} has no field(s) {gone}: table, limit and mode are kept differently in this tree', paths=total)
             try:
                 fn = find_method(ex.prog, ty, 'clone', trait='Clone')
             except NotFound:
